@@ -44,4 +44,11 @@ def shiftDate (c : Date) (k : Int) : DUnit → Date
   | .weekday => addDays c k
   | .eternity => addDays c k
 
+/-- `dss` lists, piece by piece, something related by `R` to each element of `qs` (same length) -/
+def Piecewise (R : Period → List Period → Prop) : List Period → List (List Period) → Prop
+  | [], [] => True
+  | [], _ :: _ => False
+  | _ :: _, [] => False
+  | q :: qs, ds :: dss => R q ds ∧ Piecewise R qs dss
+
 end OFCore
